@@ -1272,7 +1272,8 @@ def bb_signal_case(d, name, sig, with_old_record):
     os.mkfifo(os.path.join(root, 'gate'))
     e = dict(os.environ)
     e.pop('ZINOMA_VERIF', None)
-    p = subprocess.Popen([vf.ZINOMA, 't'], cwd=root, env=e, stdout=subprocess.PIPE, stderr=subprocess.PIPE, start_new_session=True)
+    p = subprocess.Popen([vf.ZINOMA, 't'], cwd=root, env=e, stdout=subprocess.PIPE, stderr=subprocess.PIPE, start_new_session=True,
+                         preexec_fn=vf.reset_signals)
     t0 = time.time()
     started = False
     while time.time() - t0 < 30:
